@@ -311,6 +311,8 @@ def _run(spec, scenario, cfgkw, fs_fault, cancel_at, cancel_how, keep_tmp, sampl
             yield
         finally:
             f.__defaults__ = saved
+    from harness.sched import instr as _instr
+    _instr.PIN_TRACKING[0] = bool(sample)
     scen.PROGRESS_YIELD[0] = bool(spec.get('progress_yield'))
     scen.QUEUED_YIELD[0] = bool(spec.get('queued_yield'))
     with scaled_adjuster(utils, 1, 1000, 1000), scaled_aggregator(spec.get('agg_threshold')):
